@@ -237,6 +237,41 @@ func (r *c13Run) controller(done chan struct{}) {
 	}
 }
 
+// c13PickStored returns offset and length of the choice-th stored segment of
+// the file behind h (or a 1-byte range in its middle).
+func c13PickStored(h File, choice int, middle bool) (int64, int) {
+	fh, ok := h.(*filehandle)
+	if !ok {
+		return 0, 0
+	}
+	fn, ok := fh.inode.(*filenode)
+	if !ok {
+		return 0, 0
+	}
+	fn.RLock()
+	defer fn.RUnlock()
+	type rng struct {
+		off int64
+		n   int
+	}
+	var stored []rng
+	var pos int64
+	for _, seg := range fn.segments {
+		if _, ok := seg.(storedSegment); ok && seg.Len() > 0 && (!middle || seg.Len() >= 3) {
+			stored = append(stored, rng{pos, seg.Len()})
+		}
+		pos += int64(seg.Len())
+	}
+	if len(stored) == 0 {
+		return 0, 0
+	}
+	c := stored[choice%len(stored)]
+	if middle {
+		return c.off + int64(1+choice%(c.n-2)), 1
+	}
+	return c.off, c.n
+}
+
 func c13Pattern(w, seq, n int) []byte {
 	b := make([]byte, n)
 	for i := range b {
@@ -294,6 +329,25 @@ func (r *c13Run) worker(w int, files []*c13File, ops []c13Op, dirs []string, wg 
 				mutate(f, t0, nil)
 			}
 			r.event("w%d open %q flag=%#x", w, f.path, flag)
+		case "overseg", "poke":
+			// Aimed writes: "overseg" overwrites exactly one stored (flushed)
+			// segment of the file, "poke" writes one byte into the middle of
+			// one. The choice looks at the real segment list, the oracle does
+			// not.
+			if f.h == nil || !f.exists || f.app {
+				continue
+			}
+			off, n := c13PickStored(f.h, op.n, op.kind == "poke")
+			if n == 0 {
+				continue
+			}
+			if pos, err := f.h.Seek(off, io.SeekStart); err != nil || pos != off {
+				r.failf("worker %d op %d: Seek(%q, %d) = %d, %v", w, i, f.path, off, pos, err)
+				return
+			}
+			f.off = off
+			op.n = n
+			fallthrough
 		case "write":
 			if f.h == nil || !f.exists {
 				continue
@@ -436,7 +490,7 @@ func (r *c13Run) worker(w int, files []*c13File, ops []c13Op, dirs []string, wg 
 	}
 }
 
-func (r *c13Run) saver(id int, nsaves int, gaps []int, saves *[]c13Save, mu *sync.Mutex, stop *int32, wg *sync.WaitGroup) {
+func (r *c13Run) saver(id int, nsaves int, gaps []int, flushPlan []bool, saves *[]c13Save, mu *sync.Mutex, stop *int32, wg *sync.WaitGroup) {
 	defer wg.Done()
 	for k := 0; k < nsaves && atomic.LoadInt32(stop) == 0; k++ {
 		// wait for a few foreground operations
@@ -445,8 +499,8 @@ func (r *c13Run) saver(id int, nsaves int, gaps []int, saves *[]c13Save, mu *syn
 		for atomic.LoadInt64(&r.fgOps) < target && time.Now().Before(deadline) && atomic.LoadInt32(stop) == 0 {
 			runtime.Gosched()
 		}
-		if k%2 == 1 {
-			if err := r.fs.Flush("", k%4 == 1); err != nil {
+		if flushPlan[(2*k)%len(flushPlan)] {
+			if err := r.fs.Flush("", flushPlan[(2*k+1)%len(flushPlan)]); err != nil {
 				r.failf("saver %d: Flush: %v", id, err)
 				return
 			}
@@ -490,6 +544,14 @@ func c13Walk(fs FileSystem, dir string, out map[string][]string) error {
 func c13Case(t *rapid.T) {
 	oldBS, oldCW := maxBlockSize, concurrentWriters
 	bs := rapid.IntRange(2, 16).Draw(t, "blockSize")
+	unit := bs
+	if rapid.IntRange(0, 3).Draw(t, "largeLimit") == 0 {
+		// a block limit far above the data size: nothing is flushed by the
+		// writes themselves, only the savers' asynchronous Flush calls pack
+		// several small segments into shared blocks
+		bs = rapid.SampledFrom([]int{64, 1 << 26}).Draw(t, "largeBlockSize")
+		unit = rapid.SampledFrom([]int{3, 4, 8}).Draw(t, "unit")
+	}
 	cw := rapid.IntRange(1, 4).Draw(t, "concurrentWriters")
 	maxBlockSize, concurrentWriters = bs, cw
 	defer func() { maxBlockSize, concurrentWriters = oldBS, oldCW }()
@@ -499,7 +561,7 @@ func c13Case(t *rapid.T) {
 	dirs := []string{"", "shared", "shared2"}
 	allFiles := make([][]*c13File, nworkers)
 	allOps := make([][]c13Op, nworkers)
-	kinds := []string{"open", "write", "write", "write", "write", "truncate", "seek", "read", "read", "readall", "move", "remove"}
+	kinds := []string{"open", "write", "write", "write", "write", "truncate", "seek", "read", "read", "readall", "move", "remove", "overseg", "overseg", "poke", "poke"}
 	for w := 0; w < nworkers; w++ {
 		nf := rapid.IntRange(1, 3).Draw(t, "files")
 		for j := 0; j < nf; j++ {
@@ -516,13 +578,15 @@ func c13Case(t *rapid.T) {
 			case "open":
 				op.flag = rapid.SampledFrom([]int{0, 0, os.O_TRUNC, os.O_APPEND}).Draw(t, "flag")
 			case "write":
-				op.n = rapid.SampledFrom([]int{1, bs - 1, bs, bs + 1, 2 * bs, 3*bs + 1, rapid.IntRange(0, 3*bs).Draw(t, "wn")}).Draw(t, "writeLen")
+				op.n = rapid.SampledFrom([]int{1, unit - 1, unit, unit + 1, 2 * unit, 3*unit + 1, rapid.IntRange(0, 3*unit).Draw(t, "wn")}).Draw(t, "writeLen")
 			case "truncate":
-				op.n = rapid.IntRange(0, 4*bs).Draw(t, "truncTo")
+				op.n = rapid.IntRange(0, 4*unit).Draw(t, "truncTo")
 			case "seek":
-				op.off = int64(rapid.IntRange(0, 4*bs).Draw(t, "seekTo"))
+				op.off = int64(rapid.IntRange(0, 4*unit).Draw(t, "seekTo"))
+			case "overseg", "poke":
+				op.n = rapid.IntRange(0, 1000).Draw(t, "segChoice")
 			case "read", "readall":
-				op.n = rapid.IntRange(1, 2*bs+1).Draw(t, "readLen")
+				op.n = rapid.IntRange(1, 2*unit+1).Draw(t, "readLen")
 			case "move":
 				op.dir = rapid.IntRange(0, len(dirs)-1).Draw(t, "toDir")
 			}
@@ -541,7 +605,8 @@ func c13Case(t *rapid.T) {
 		})
 	}
 	saveGaps := rapid.SliceOfN(rapid.IntRange(0, 12), 3, 3).Draw(t, "saveGaps")
-	nsaves := rapid.IntRange(1, 4).Draw(t, "nsaves")
+	nsaves := rapid.IntRange(1, 6).Draw(t, "nsaves")
+	flushPlan := rapid.SliceOfN(rapid.Bool(), 12, 12).Draw(t, "flushPlan")
 
 	store := newVfStore()
 	r := &c13Run{store: store, plan: plan, stopGate: make(chan struct{}), wake: make(chan struct{}, 1), errs: make(chan string, 1)}
@@ -572,7 +637,7 @@ func c13Case(t *rapid.T) {
 		}
 		for s := 0; s < nsavers; s++ {
 			swg.Add(1)
-			go r.saver(s, nsaves, saveGaps, &saves, &savesMu, &stop, &swg)
+			go r.saver(s, nsaves, saveGaps, flushPlan, &saves, &savesMu, &stop, &swg)
 		}
 		wg.Wait()
 		atomic.StoreInt32(&stop, 1)
@@ -731,6 +796,7 @@ func c13Case(t *rapid.T) {
 	nontrivial := r.bgWhileFg > 0 && overlapped > 0
 	labels := []string{
 		fmt.Sprintf("workers=%d", nworkers),
+		fmt.Sprintf("large-block-limit=%v", bs > 16),
 		"bg-writes-released-while-workers-ran>0=" + fmt.Sprint(r.bgWhileFg > 0),
 		"out-of-order-release>0=" + fmt.Sprint(r.reordered > 0),
 		"injected-write-failure>0=" + fmt.Sprint(r.failedPut > 0),
